@@ -18,12 +18,13 @@
 //! the whole execution machinery once per page).  The mock answers the k-th frame it receives for a
 //! (marker, page) with the k-th scripted outcome of that page (success when the script is used up).
 //!
-//! observation (after '|'):   `env:<n>:rp<in-attempt re-prepares merged>` followed by one record per (logical request, page), or
+//! observation (after '|'):   `env:<n>:rp<in-attempt re-prepares merged>:sh<shards per node>` followed by one record per (logical request, page), or
 //! `skip-env <reason>` when the session could not be built for lack of loopback ports.
 //!   record  R;api=<a>;idem=<0|1>;pol=<policy>;spec=<-|max:interval ms>;cl=<consistency>;n=<nodes>;
 //!           down=<nodes whose connection the mock has cut so far>;pg=<page>;t0=<us>;tr=<us>;mg=<us>;
+//!           to=<client-side request timeout of the statement in ms | ->;
 //!           res=<result>;co=<coordinator node named by the result | ->;fr=<frame>,<frame>...
-//!   frame   <node>/<consistency>/<arrival us>/<answer us | ->/<ok | drop | X<error token> | ->
+//!   frame   <node>/<consistency>/<arrival us>/<answer us | ->/<ok | drop | X<error token> | ->/<shard>
 //!   result  rows | void | end | X<error token> | pool | emptyplan | timeout | hang | other:<text>
 //!   t0 = lower bound of the instant the driver started executing this page, tr = upper bound of the
 //!   instant it returned, mg = margin below which two answer times are treated as simultaneous
@@ -73,6 +74,7 @@ pub const SHAPES: u64 = 14;
 /// speculative retry interval used everywhere (ms); slow answers are delayed by SLOW_MS
 const INTERVAL_MS: u64 = 30;
 const SLOW_MS: u64 = 300;
+const TIMEOUT_MS: u64 = 100;
 /// two answer times closer than this (plus the measured stall) are treated as simultaneous
 const MARGIN_US: u64 = 150_000;
 
@@ -175,9 +177,13 @@ struct Req {
     stmt_cl: Option<Consistency>,
     /// scripted outcomes per page, by arrival index
     pages: Vec<Vec<Outcome>>,
+    /// client-side request timeout set on the statement (ms)
+    timeout_ms: Option<u64>,
 }
 
 struct Scenario {
+    /// shards per node (0 = the nodes advertise no sharding); one connection per shard
+    shards: u16,
     nnodes: usize,
     default: Cfg,
     reqs: Vec<Req>,
@@ -453,7 +459,7 @@ fn gen_page_script(r: &mut Rng, mix: Mix, spec: bool, allow_drop: bool, exec: bo
     v
 }
 
-fn gen_req(r: &mut Rng, mix: Mix, default: &Cfg, allow_drop: bool) -> Req {
+fn gen_req(r: &mut Rng, mix: Mix, default: &Cfg, allow_drop: bool, shards: u16) -> Req {
     let api = match r.below(10) {
         0 => Api::QU,
         1 => Api::EU,
@@ -472,10 +478,29 @@ fn gen_req(r: &mut Rng, mix: Mix, default: &Cfg, allow_drop: bool) -> Req {
     let stmt_pol = if r.chance(1, 4) { Some(gen_pol(r, mix)) } else { None };
     let stmt_cl = if r.chance(1, 3) { Some(gen_cl(r)) } else { None };
     let spec = profile.as_ref().unwrap_or(default).spec.is_some();
-    let npages = if api.paged() { r.range(1, 3) as usize } else { 1 };
+    // On sharded nodes a pager's plan for page >= 1 is the previous coordinator's (node, shard) followed by
+    // the fresh plan minus that (node, shard) only: the node can occur a second time on another shard.
+    // The e2e model's targets are nodes, so *_iter requests on sharded clusters fetch one page
+    // (manual paging has no coordinator stickiness and keeps 1-3 pages).
+    let one_page = shards > 0 && matches!(api, Api::QI | Api::EI);
+    let npages = if api.paged() && !one_page { r.range(1, 3) as usize } else { 1 };
     let exec = matches!(api, Api::EU | Api::ES | Api::EI);
-    let pages = (0..npages).map(|_| gen_page_script(r, mix, spec, allow_drop, exec)).collect();
-    Req { api, idem, profile, stmt_pol, stmt_cl, pages }
+    let mut pages: Vec<Vec<Outcome>> = (0..npages).map(|_| gen_page_script(r, mix, spec, allow_drop, exec)).collect();
+    // client-side timeout (C06 mix): 100 ms against a first answer that is SLOW_MS late
+    let timeout_ms = if mix == Mix::C06 && r.chance(1, 14) {
+        let last = pages.len() - 1;
+        let reply = pages[last].first().map(|o| o.reply.clone()).unwrap_or(Reply::Ok);
+        let slow = Outcome { delay_ms: SLOW_MS, reply: if reply == Reply::Drop { Reply::Ok } else { reply } };
+        if pages[last].is_empty() {
+            pages[last].push(slow);
+        } else {
+            pages[last][0] = slow;
+        }
+        Some(TIMEOUT_MS)
+    } else {
+        None
+    };
+    Req { api, idem, profile, stmt_pol, stmt_cl, pages, timeout_ms }
 }
 
 /// The fixed shapes: seed s < 7: api s, the first frame of every page is answered with a success
@@ -493,8 +518,9 @@ fn shape_scenario(s: u64) -> Scenario {
     let nospec = Cfg { pol: 0, spec: None, cl: Consistency::Quorum };
     // max_retry_count = 0: a policy that allows no speculative execution at all
     let zero = Cfg { pol: 0, spec: Some((0, INTERVAL_MS)), cl: Consistency::Quorum };
-    let mk = |idem: bool, profile: Option<Cfg>| Req { api, idem, profile, stmt_pol: None, stmt_cl: None, pages: script() };
+    let mk = |idem: bool, profile: Option<Cfg>| Req { api, idem, profile, stmt_pol: None, stmt_cl: None, pages: script(), timeout_ms: None };
     Scenario {
+        shards: if s % 2 == 1 && !matches!(api, Api::QI | Api::EI) { 2 } else { 0 },
         nnodes: 3,
         default,
         reqs: vec![mk(false, None), mk(true, None), mk(false, Some(own)), mk(false, Some(nospec)), mk(true, Some(zero))],
@@ -512,14 +538,15 @@ fn gen_scenario(mix: Mix, sseed: u64, thorough: bool) -> Scenario {
     let mut r = Rng::new(sseed ^ salt);
     let nnodes = r.range(2, 4) as usize;
     let default = gen_cfg(&mut r, mix);
+    let shards: u16 = *r.pick(&[0u16, 0, 0, 2, 3]);
     let n = if thorough { r.range(4, 9) } else { r.range(3, 6) } as usize;
     let mut reqs = Vec::new();
     for i in 0..n {
         // connection drops only in the last third of a scenario: a cut pool makes later plans shorter
         let allow_drop = mix == Mix::C06 && i * 3 >= n * 2;
-        reqs.push(gen_req(&mut r, mix, &default, allow_drop));
+        reqs.push(gen_req(&mut r, mix, &default, allow_drop, shards));
     }
-    Scenario { nnodes, default, reqs }
+    Scenario { shards, nnodes, default, reqs }
 }
 
 // ------------------------------------------------------------------------------------------
@@ -705,6 +732,9 @@ macro_rules! configure {
         if let Some(c) = $req.stmt_cl {
             $st.set_consistency(c);
         }
+        if let Some(t) = $req.timeout_ms {
+            $st.set_request_timeout(Some(Duration::from_millis(t)));
+        }
     }};
 }
 
@@ -859,6 +889,7 @@ async fn run_request(session: &Session, cluster: &MockCluster, prepared: &Prepar
 }
 
 struct TrFrame {
+    shard: u16,
     conn: u64,
     idx: usize,
     node: usize,
@@ -871,7 +902,7 @@ struct TrFrame {
 pub async fn run_scenario(mix: Mix, sseed: u64, thorough: bool) -> String {
     let sc = gen_scenario(mix, sseed, thorough);
     let debug = std::env::var("E2E_DEBUG").is_ok();
-    let spec = ClusterSpec::uniform("e2e", &[("dc1", sc.nnodes)], 1, 4, 0).with_keyspace(KeyspaceDef::simple("ks", 1));
+    let spec = ClusterSpec::uniform("e2e", &[("dc1", sc.nnodes)], 1, 4, sc.shards).with_keyspace(KeyspaceDef::simple("ks", 1));
     let cluster = match MockCluster::start(spec).await {
         Ok(c) => Arc::new(c),
         Err(e) => return format!("error mock-start {:?}", e).replace(' ', "_"),
@@ -882,7 +913,7 @@ pub async fn run_scenario(mix: Mix, sseed: u64, thorough: bool) -> String {
         .known_node_addr(cluster.contact_point(0))
         .local_ip_address(Some(cluster.client_ip()))
         .connection_timeout(Duration::from_secs(10))
-        .pool_size(PoolSize::PerHost(NonZeroUsize::new(1).unwrap()))
+        .pool_size(if sc.shards == 0 { PoolSize::PerHost(NonZeroUsize::new(1).unwrap()) } else { PoolSize::PerShard(NonZeroUsize::new(1).unwrap()) })
         .keepalive_interval(Duration::from_secs(3000))
         .keepalive_timeout(Duration::from_secs(3000))
         .cluster_metadata_refresh_interval(Duration::from_secs(3600))
@@ -914,7 +945,8 @@ pub async fn run_scenario(mix: Mix, sseed: u64, thorough: bool) -> String {
     // every node's pool connected (one connection per node + the control connection), the prepared
     // statement known to every node
     let t = Instant::now();
-    while cluster.connections(None).len() < sc.nnodes + 1 && t.elapsed() < Duration::from_secs(20) {
+    let want_conns = sc.nnodes * (sc.shards.max(1) as usize) + 1;
+    while cluster.connections(None).len() < want_conns && t.elapsed() < Duration::from_secs(20) {
         tokio::time::sleep(Duration::from_millis(2)).await;
     }
     let prepared = {
@@ -1052,7 +1084,7 @@ pub async fn run_scenario(mix: Mix, sseed: u64, thorough: bool) -> String {
                 _ => {}
             }
         }
-        frames.entry((m, p)).or_default().push(TrFrame { conn, idx: i, node: fr.node, cl: fr.cl, a: tmono[i], b, ans });
+        frames.entry((m, p)).or_default().push(TrFrame { shard: trace[i].shard, conn, idx: i, node: fr.node, cl: fr.cl, a: tmono[i], b, ans });
     }
     drop(g);
     // EXECUTE -> UNPREPARED -> PREPARE -> EXECUTE on the same connection is ONE attempt of the driver
@@ -1073,6 +1105,7 @@ pub async fn run_scenario(mix: Mix, sseed: u64, thorough: bool) -> String {
                     v[k].b = second.b;
                     v[k].ans = second.ans;
                     v[k].cl = second.cl;
+                    v[k].shard = second.shard;
                     reprepares += 1;
                     true
                 }
@@ -1083,7 +1116,7 @@ pub async fn run_scenario(mix: Mix, sseed: u64, thorough: bool) -> String {
             }
         }
     }
-    let mut out: Vec<String> = vec![format!("env:{}:rp{}", sc.nnodes, reprepares)];
+    let mut out: Vec<String> = vec![format!("env:{}:rp{}:sh{}", sc.nnodes, reprepares, sc.shards)];
     for (i, ro) in robs.iter().enumerate() {
         let req = &sc.reqs[i];
         let mut pages: Vec<(usize, Option<u64>, u64, String, Option<usize>)> = ro.pages.iter().map(|p| (p.page, p.t0, p.tret, p.res.clone(), p.co)).collect();
@@ -1114,17 +1147,18 @@ pub async fn run_scenario(mix: Mix, sseed: u64, thorough: bool) -> String {
                 .iter()
                 .map(|f| {
                     format!(
-                        "{:x}/{}/{:x}/{}/{}",
+                        "{:x}/{}/{:x}/{}/{}/{:x}",
                         f.node,
                         cl_name_of_code(f.cl),
                         f.a,
                         f.b.map(|b| format!("{:x}", b)).unwrap_or("-".into()),
-                        f.ans
+                        f.ans,
+                        f.shard
                     )
                 })
                 .collect();
             out.push(format!(
-                "R;api={};idem={};pol={};spec={};cl={};n={:x};down={};pg={:x};t0={:x};tr={:x};mg={:x};res={};co={};fr={}",
+                "R;api={};idem={};pol={};spec={};cl={};n={:x};down={};pg={:x};t0={:x};tr={:x};mg={:x};to={};res={};co={};fr={}",
                 req.api.tag(),
                 req.idem as u8,
                 POLICIES[ro.cfg.pol],
@@ -1136,6 +1170,7 @@ pub async fn run_scenario(mix: Mix, sseed: u64, thorough: bool) -> String {
                 t0,
                 tret,
                 MARGIN_US + 3 * ro.jitter_us,
+                req.timeout_ms.map(|t| format!("{:x}", t)).unwrap_or("-".into()),
                 res,
                 co.map(|n| format!("{:x}", n)).unwrap_or("-".into()),
                 if frs.is_empty() { "-".to_string() } else { frs.join(",") }
@@ -1160,7 +1195,7 @@ fn prev_first_ok(rec: &str) -> Option<u64> {
     fr.split(',')
         .filter_map(|f| {
             let p: Vec<&str> = f.split('/').collect();
-            if p.len() == 5 && p[4] == "ok" { u64::from_str_radix(p[3], 16).ok() } else { None }
+            if p.len() >= 5 && p[4] == "ok" { u64::from_str_radix(p[3], 16).ok() } else { None }
         })
         .min()
 }
